@@ -293,7 +293,7 @@ class _NP(types.ModuleType):
         n = a.size
         if n == 0:
             ctx().need("var-empty", False)
-            return SV(t=ctx().fresh("undef"))
+            return SV(t=ctx().fresh("undef", val=float("nan")))
         m = NP.sum(a) / n
         s = SV(c=Fr(0))
         for e in a.a.flat:
@@ -301,7 +301,7 @@ class _NP(types.ModuleType):
             s = s + d * d
         if n - ddof <= 0:
             ctx().need("var-ddof", False)
-            return SV(t=ctx().fresh("undef"))
+            return SV(t=ctx().fresh("undef", val=float("nan")))
         return s / (n - ddof)
 
     @staticmethod
